@@ -219,6 +219,7 @@ static void list_readback(int slot, const char *when)
         spif_bool_t gc = SPIF_LIST_CONTAINS(l, probe);
         if (gi != j) FAILM("index", "%s: index(%ld) returned %d, ideal sequence says %d", when, key, gi, j);
         if ((j < 0) != (gf == NULL)) FAILM("find", "%s: find(%ld) returned %s, ideal sequence says the value is %s", when, key, gf ? "an element" : "NULL", j < 0 ? "absent" : "present");
+        if (gf == SPIF_OBJ(probe)) FAILM("find", "%s: find(%ld) returned the probe object, not the stored element", when, key);
         if (gf) { elem_ident(gf, 0, &r, &k, &v, when); if (k != key) FAILM("find", "%s: find(%ld) returned element #%ld with key %ld, not an element equal to the probe", when, key, r, k); }
         if ((gc ? 1 : 0) != (j >= 0)) FAILM("contains", "%s: contains(%ld) returned %d, ideal sequence says %d", when, key, (int)gc, j >= 0);
         SPIF_OBJ_DEL(probe);
@@ -242,7 +243,7 @@ static long resolve_idx(long code, int len)
    three classes are interchangeable -- so whatever the first class of a run does (how many elements the copy and the original
    each still yield after k steps), the others must do too; and a copy is a separate object that can be deleted on its own */
 static int iterdup_first_cls = -1;
-static short iterdup_obs[PLAN_MAXOPS][2];
+static short iterdup_obs[PLAN_MAXOPS][3];
 static void iter_dup_check(spif_iterator_t a, int len, long sel, int opidx, const char *k)
 {
     int adv = (int)(sel % (len + 1)), c1 = 0, c2 = 0;
@@ -257,12 +258,16 @@ static void iter_dup_check(spif_iterator_t a, int len, long sel, int opidx, cons
     SPIF_ITERATOR_DEL(c);
     SPIF_ITERATOR_DEL(a);
     if (opidx >= 0 && opidx < PLAN_MAXOPS) {
-        if (cur_cls == iterdup_first_cls) { iterdup_obs[opidx][0] = (short)c1; iterdup_obs[opidx][1] = (short)adv; }
-        else if (iterdup_obs[opidx][1] == adv && iterdup_obs[opidx][0] != c1)
+        if (cur_cls == iterdup_first_cls) { iterdup_obs[opidx][0] = (short)c1; iterdup_obs[opidx][1] = (short)adv; iterdup_obs[opidx][2] = (short)len; }
+        else if (iterdup_obs[opidx][1] == adv && iterdup_obs[opidx][2] == len && iterdup_obs[opidx][0] != c1)      /* (comparable only where the classes hold as many elements: which of several equal elements a removal takes is theirs to choose) */
             FAILM("iterator-copy", "%s: the copy of an iterator that had yielded %d of %d elements yields %d more in this class and %d in class %s", k, adv, len, c1, iterdup_obs[opidx][0], cls_name[iterdup_first_cls]);
     }
     probe_hit("iterator_copied");
 }
+static int sparse_now(void);
+static void list_bare_query(int slot, const char *when);
+static void vector_bare_query(int slot, const char *when);
+static void map_bare_query(int slot, const char *when);
 static void list_pass(const plan_t *p)
 {
     memset(C, 0, sizeof(C));
@@ -359,6 +364,7 @@ static void list_pass(const plan_t *p)
                 spif_obj_t got = SPIF_LIST_FIND(l, probe);
                 long r, kk, v;
                 if ((j < 0) != (got == NULL)) FAILM("find", "find() returned %s, ideal sequence says the value is %s", got ? "an element" : "NULL", j < 0 ? "absent" : "present");
+                if (got == SPIF_OBJ(probe)) FAILM("find", "find() returned the probe object, not the stored element");
                 if (got) { elem_ident(got, 0, &r, &kk, &v, k); if (kk != o->a[1]) FAILM("find", "find() returned element #%ld with key %ld, not an element equal to the probe", r, kk); }
             } else {
                 spif_bool_t got = SPIF_LIST_CONTAINS(l, probe);
@@ -418,7 +424,7 @@ static void list_pass(const plan_t *p)
             C[s] = NULL; m->len = 0;
         } else continue;
         tr_printf("%s[%s] slot%d -> len=%d", k, cls_name[cur_cls], s, M[s].len);
-        for (int q = 0; q < NSLOT; q++) list_readback(q, k);
+        for (int q = 0; q < NSLOT; q++) { if (sparse_now()) list_bare_query(q, k); else list_readback(q, k); }
         tr_u64("alloc", sa_live_digest());
     }
     R.cur_op = NULL;
@@ -618,7 +624,7 @@ static void vector_pass(const plan_t *p)
             C[s] = NULL; m->len = 0;
         } else continue;
         tr_printf("%s[%s] slot%d -> len=%d", k, cls_name[cur_cls], s, M[s].len);
-        for (int q = 0; q < NSLOT; q++) vector_readback(q, k);
+        for (int q = 0; q < NSLOT; q++) { if (sparse_now()) vector_bare_query(q, k); else vector_readback(q, k); }
         tr_u64("alloc", sa_live_digest());
     }
     R.cur_op = NULL;
@@ -686,6 +692,63 @@ static void map_readback(int slot, const char *when)
     }
 }
 
+
+/* "sparse" plans: the full read-back after every operation re-seeds whatever an implementation remembers between calls (a cursor, a
+   "last hit", a cached tail) before the next operation can meet it stale.  In a sparse plan two operations out of three are followed by
+   ONE query only, at a position or key derived from the operation's number -- so "query, mutate, query" happens with nothing in between. */
+static int sparse_plan;
+static int sparse_now(void) { return sparse_plan && R.cur_op_index % 3 != 0 && R.cur_op_index + 1 < R.plan->nops; }
+static void list_bare_query(int slot, const char *when)
+{
+    spif_list_t l = C[slot];
+    model_t *m = &M[slot];
+    long r, k, v;
+    int pos;
+    if (!l || !m->len) return;
+    pos = (int)(((long)R.cur_op_index * 7 + slot * 3 + 1) % m->len);
+    if ((R.cur_op_index / 3) % 2) pos = pos - m->len;                      /* counted from the end, half of the time */
+    { spif_obj_t e = SPIF_LIST_GET(l, (spif_listidx_t)pos); int j = pos < 0 ? pos + m->len : pos;
+      elem_ident(e, 0, &r, &k, &v, when);
+      if (r != m->root[j]) FAILM("get", "%s: a single get(%d) right after the operation returned element #%ld, ideal sequence has #%ld there", when, pos, r, m->root[j]); }
+    probe_hit("bare_query_between_operations");
+}
+static void vector_bare_query(int slot, const char *when)
+{
+    spif_vector_t vv = C[slot];
+    model_t *m = &M[slot];
+    long key = ((long)R.cur_op_index * 5 + slot) % 9 - 1;
+    vobj_t probe;
+    spif_obj_t got;
+    int j;
+    if (!vv) return;
+    probe = VNEW(key); j = m_find_key(m, key);
+    got = SPIF_VECTOR_FIND(vv, probe);
+    if ((got != NULL) != (j >= 0)) FAILM("find", "%s: a single find(%ld) right after the operation returned %s, ideal multiset says %s", when, key, got ? "an element" : "NULL", j >= 0 ? "present" : "absent");
+    if (got == SPIF_OBJ(probe)) FAILM("find", "%s: find(%ld) returned the probe object, not a stored element", when, key);
+    if (got) { long r, k, v; elem_ident(got, 0, &r, &k, &v, when); if (k != key) FAILM("find", "%s: find(%ld) returned an element with key %ld", when, key, k); }
+    SPIF_OBJ_DEL(probe);
+    probe_hit("bare_query_between_operations");
+}
+static void map_bare_query(int slot, const char *when)
+{
+    spif_map_t mp = C[slot];
+    model_t *m = &M[slot];
+    long key = ((long)R.cur_op_index * 5 + slot) % 9 - 1;
+    vobj_t probe;
+    spif_obj_t got;
+    int j;
+    if (!mp) return;
+    probe = VNEW(key); j = m_find_key(m, key);
+    got = SPIF_MAP_GET(mp, probe);
+    if ((got != NULL) != (j >= 0)) FAILM("get", "%s: a single get(key %ld) right after the operation returned %s, ideal dictionary says %s", when, key, got ? "a value" : "NULL", j >= 0 ? "present" : "absent");
+    if (got) {
+        if (!vobj_valid(got)) FAILI("dangling-element", "%s: get(key %ld) returned a value that is not a live element", when, key);
+        if (((vobj_t)got)->key != m->val[j]) FAILM("get", "%s: get(key %ld) returned value %ld, the value most recently set is %ld", when, key, ((vobj_t)got)->key, m->val[j]);
+    }
+    SPIF_OBJ_DEL(probe);
+    probe_hit("bare_query_between_operations");
+}
+
 static void map_pass(const plan_t *p)
 {
     long next_val = 100;
@@ -727,6 +790,14 @@ static void map_pass(const plan_t *p)
                 b = SPIF_MAP_SET(mp, kk, kk);
                 val = key;
                 probe_hit("set_key_as_its_own_value");
+            } else if (o->a[2] == 4 && j >= 0 && k[3] == 0) {
+                /* m[stored key] = v: the key handed in is the map's own key object (a client walking the map and updating entries) */
+                spif_obj_t ownkey = NULL;
+                spif_iterator_t it = SPIF_MAP_ITERATOR(mp);
+                for (int q = 0; q <= j && SPIF_ITERATOR_HAS_NEXT(it); q++) { spif_obj_t pr = SPIF_ITERATOR_NEXT(it); if (q == j && pr && sa_readable(pr, sizeof(struct spif_objpair_t_struct))) ownkey = SPIF_OBJPAIR(pr)->key; }
+                SPIF_ITERATOR_DEL(it);
+                b = SPIF_MAP_SET(mp, ownkey ? ownkey : SPIF_OBJ(kk), vv);
+                if (ownkey) probe_hit("set_with_own_key");
             } else if (k[3] == 0) b = SPIF_MAP_SET(mp, kk, vv);
             else {
                 spif_objpair_t pr = spif_objpair_new_from_both(SPIF_OBJ(kk), SPIF_OBJ(vv));
@@ -822,7 +893,7 @@ static void map_pass(const plan_t *p)
             C[s] = NULL; m->len = 0;
         } else continue;
         tr_printf("%s[%s] slot%d -> len=%d", k, cls_name[cur_cls], s, M[s].len);
-        for (int q = 0; q < NSLOT; q++) map_readback(q, k);
+        for (int q = 0; q < NSLOT; q++) { if (sparse_now()) map_bare_query(q, k); else map_readback(q, k); }
         tr_u64("alloc", sa_live_digest());
     }
     R.cur_op = NULL;
@@ -834,6 +905,7 @@ static void exec_kind(const plan_t *p, void (*pass)(const plan_t *))
 {
     long mask = plan_get(p, "classes", 7);
     mixed_classes = (int)plan_get(p, "mixedclass", 0);
+    sparse_plan = (int)plan_get(p, "sparse", 0);
     if (mixed_classes) probe_hit("elements_of_two_comparable_classes");
     iterdup_first_cls = -1;
     for (cur_cls = 0; cur_cls < NCLS; cur_cls++) {
@@ -854,6 +926,7 @@ static void gen_alloc_knobs(plan_t *p, rng_t *r)
     plan_knob(p, "alloc.reuse", rng_range(r, 0, 2));
     { static const int paints[] = { 0x00, 0xA5, 0xFF, 0x5A }; plan_knob(p, "stack.paint", paints[rng_below(r, 4)]); }
     if (rng_chance(r, 1, 5)) plan_knob(p, "mixedclass", 1);
+    if (rng_chance(r, 1, 3)) plan_knob(p, "sparse", 1);          /* most operations followed by a single query instead of the full read-back */
 }
 static long gen_idx(rng_t *r, int len)
 {
@@ -937,7 +1010,7 @@ static void gen_map(plan_t *p, rng_t *r)
         int s = ex[1] && rng_chance(r, 1, 2) ? 1 : 0, k = (int)rng_below(r, 100);
         long key = (long)rng_below(r, (uint32_t)krange);
         if (!ex[s]) { plan_op(p, 0, "new", 1, (long)s); ex[s] = 1; continue; }
-        if (k < 40) { int pair = rng_chance(r, 1, 6); plan_op(p, 0, pair ? "set_pair" : "set", 3, (long)s, key, !pair && rng_chance(r, 1, 8) ? 2L : !pair && rng_chance(r, 1, 10) ? 3L : (long)rng_chance(r, 1, 2)); }
+        if (k < 40) { int pair = rng_chance(r, 1, 6); plan_op(p, 0, pair ? "set_pair" : "set", 3, (long)s, key, !pair && rng_chance(r, 1, 8) ? 2L : !pair && rng_chance(r, 1, 10) ? 3L : !pair && rng_chance(r, 1, 8) ? 4L : (long)rng_chance(r, 1, 2)); }
         else if (k < 62) { if (rng_chance(r, 1, 5)) plan_op(p, 0, "remove", 3, (long)s, key, 1L); else plan_op(p, 0, "remove", 2, (long)s, key); }
         else if (k < 68) plan_op(p, 0, "has_value", 2, (long)s, (long)rng_range(r, -1, 6));
         else if (k < 70) plan_op(p, 0, rng_chance(r, 1, 4) ? "iter_dup" : rng_chance(r, 1, 2) ? "iter_beyond" : "iter_partial", 2, (long)s, (long)rng_below(r, 1000));
